@@ -17,7 +17,7 @@ def nontrivial(sc):
     return False
 
 
-def obstruction_probe(xvc, rng, parallel):
+def obstruction_probe(xvc, rng, parallel, force=None):
     """oracle only (directories are not entries of M-REPO): several committed files are deleted, a directory
     is put where one of them was, and ONE recheck command is asked to restore them all.  The obstructed
     path cannot be restored; every other one must be ("reproduces exactly the committed bytes at that
@@ -45,7 +45,7 @@ def obstruction_probe(xvc, rng, parallel):
         os.mkdir(rp.path(blocked))
         # --force selects every target (also the obstructed one, whose restore then fails); without it the
         # obstructed path is not selected at all
-        force = rng.random() < 0.7
+        force = (rng.random() < 0.7) if force is None else force
         sc["force"] = force
         args = ["--skip-git", "file", "recheck"] + (["--force"] if force else []) + (["--no-parallel"] if not parallel else [])
         rp.xvc(*args)
@@ -66,7 +66,7 @@ def run(chk, replay=None):
         xvc = C.ensure_xvc()
         chk.proof()
         import random
-        sc, bad = obstruction_probe(xvc, random.Random(replay["rseed"]), replay["parallel"])
+        sc, bad = obstruction_probe(xvc, random.Random(replay["rseed"]), replay["parallel"], replay.get("force"))
         for w in bad[:1]:
             chk.fail("oracle", w, {"kind": "obstruction", "rseed": replay["rseed"], "parallel": replay["parallel"], "scenario": sc}, name="obstruction")
         return
@@ -82,13 +82,14 @@ def run(chk, replay=None):
     if not replay:
         import random
         xvc = C.ensure_xvc()
-        nobs, nbad = (8 if chk.tier == "quick" else 60), 0
+        nobs, nbad = (12 if chk.tier == "quick" else 80), 0
         for i in range(nobs):
             rseed = chk.rng.randrange(1 << 30)
-            sc, bad = obstruction_probe(xvc, random.Random(rseed), parallel=bool(i % 2))
+            # both loops of recheck (the flag selects them), mostly with --force (which selects every target)
+            sc, bad = obstruction_probe(xvc, random.Random(rseed), parallel=bool(i % 2), force=(i % 4 != 0))
             chk.count(("obstruction", rseed, i % 2), True)
             if bad and nbad < 2:
                 nbad += 1
-                chk.fail("oracle", bad[0], {"kind": "obstruction", "rseed": rseed, "parallel": bool(i % 2), "scenario": sc, "all": bad[:10]}, name="obstruction")
+                chk.fail("oracle", bad[0], {"kind": "obstruction", "rseed": rseed, "parallel": bool(i % 2), "force": (i % 4 != 0), "scenario": sc, "all": bad[:10]}, name="obstruction")
         chk.cov.setdefault("distribution", {})["obstruction_probes"] = nobs
     return res
